@@ -3,6 +3,7 @@
 from enum import StrEnum
 
 from rzilcompiler.Transformer.Pures.CompareOp import CompareOp
+from rzilcompiler.Transformer.ValueType import ValueType, VTGroup
 from rzilcompiler.Transformer.Pures.Pure import Pure
 from rzilcompiler.Transformer.Pures.PureExec import PureExec
 
@@ -17,10 +18,12 @@ class BooleanOp(PureExec):
     def __init__(self, name: str, a: Pure, b: Pure, op_type: BooleanOpType):
         self.op_type = op_type
 
+        # The result of && || ! is an IL bool (like the result of a comparison).
+        v_type = ValueType(False, 1, VTGroup.PURE | VTGroup.BOOL)
         if b:
-            PureExec.__init__(self, name, [a, b], a.value_type)
+            PureExec.__init__(self, name, [a, b], v_type)
         else:
-            PureExec.__init__(self, name, [a], a.value_type)
+            PureExec.__init__(self, name, [a], v_type)
 
     def il_exec(self):
         a = (
